@@ -354,11 +354,51 @@ Fixpoint first_unexpected (inp : input) (ps : list peer) : option (peer * stage)
                  else first_unexpected inp rest
   end.
 
-(* fixLooseMatchPeer only changes roles / leadership; modelled loosely: any promotion of a loosely matched
-   learner, any leader transfer to a voter of the region, or nothing *)
-Definition loose_results (inp : input) (rf : rulefit) : list res :=
-  (flat_map (fun p => if is_learner p then [Some (StRuleRole, APromote (p_store p))] else []) (rf_loose rf)
-  ++ map (fun p => Some (StRuleRole, ATransfer (p_store p))) (voters_of (peers (i_region inp))))%list.
+(* NewBuilder's checks without the joint-state check (SkipOriginJointStateCheck) *)
+Definition region_ok_nojoint (inp : input) : bool :=
+  let r := i_region inp in
+  forallb (fun p => negb (p_store p =? 0)) (peers r)
+  && memZ (leader_store r) (stores_of (peers r)) && negb (leader_store r =? 0)
+  && (if rules_enabled (i_cfg inp) then match fit_rules (i_fit inp) with [] => false | _ => true end else true).
+
+(* Builder.unhealthyPeers: the stores of pending and down peers *)
+Definition unhealthy_stores (r : region) : list Z :=
+  map (fun d => p_store (fst d)) (down r) ++ flat_map (fun p => if memZ (p_id p) (pending r) then [p_store p] else []) (peers r).
+
+(* RuleChecker.allowLeader *)
+Definition rc_allow_leader (inp : input) (p : peer) : bool :=
+  negb (is_learner p)
+  && match find_store (i_stores inp) (p_store p) with
+     | Some s => sft [TransferLeader] s && any_rule_allows_leader (i_fit inp) s
+     | None => false
+     end.
+
+(* CreateTransferLeaderOperator (SkipOriginJointStateCheck) to the store of p *)
+Definition transfer_feasible (inp : input) (p : peer) : bool :=
+  let r := i_region inp in
+  region_ok_nojoint inp && negb (memZ (p_store p) (unhealthy_stores r)) && build_allow_leader inp p
+  && negb (p_store p =? leader_store r).
+
+(* fixLooseMatchPeer: an operator, an error (the rule is given up, fixBetterLocation is NOT tried), or nothing *)
+Inductive lres := LOp (r : stage * aop) | LErr | LNil.
+
+Definition fix_loose (inp : input) (rf : rulefit) (p : peer) : lres :=
+  let r := i_region inp in let ru := rf_rule rf in
+  match leader r with
+  | None => LErr                                            (* "region has no leader" *)
+  | Some l =>
+      if is_learner p && negb (rule_learner ru) then
+        if region_ok inp && negb (memZ (p_store p) (unhealthy_stores r)) then LOp (StRuleRole, APromote (p_store p)) else LErr
+      else if negb (p_id l =? p_id p) && match ru_role ru with RLeader => true | _ => false end then
+        if rc_allow_leader inp p && transfer_feasible inp p then LOp (StRuleRole, ATransfer (p_store p)) else LErr
+      else if (p_id l =? p_id p) && match ru_role ru with RFollower => true | _ => false end then
+        (* the first peer of the region that may lead - possibly the leader itself, then nothing is built *)
+        match find (rc_allow_leader inp) (peers r) with
+        | Some q => if transfer_feasible inp q then LOp (StRuleRole, ATransfer (p_store q)) else LErr
+        | None => LErr
+        end
+      else LNil
+  end.
 
 Definition better_location (inp : input) (rf : rulefit) : list res :=
   let ru := rf_rule rf in
@@ -379,6 +419,16 @@ Definition better_location (inp : input) (rf : rulefit) : list res :=
         end
   end.
 
+Fixpoint loose_loop (inp : input) (rf : rulefit) (ps : list peer) : list res :=
+  match ps with
+  | [] => better_location inp rf
+  | p :: rest => match fix_loose inp rf p with
+                 | LOp x => [Some x]
+                 | LErr => [None]
+                 | LNil => loose_loop inp rf rest
+                 end
+  end.
+
 Definition fix_rule_peer (inp : input) (rf : rulefit) : list res :=
   let ru := rf_rule rf in
   if Z.of_nat (List.length (rf_peers rf)) <? ru_count ru then
@@ -390,10 +440,7 @@ Definition fix_rule_peer (inp : input) (rf : rulefit) : list res :=
     match first_unexpected inp (rf_peers rf) with
     | Some (p, st) => rule_replace inp rf p st
     | None =>
-        match rf_loose rf with
-        | [] => better_location inp rf
-        | _ => (loose_results inp rf ++ [None] ++ better_location inp rf)%list
-        end
+        loose_loop inp rf (rf_loose rf)
     end.
 
 Definition fix_orphan (inp : input) : list res :=
@@ -414,19 +461,8 @@ Definition rule_check (inp : input) : list res :=
    replica checker (the merge checker has nothing to merge in a one-region cluster) ---------- *)
 Definition then_ (a b : list res) : list res := flat_map (fun x => match x with Some _ => [x] | None => b end) a.
 
-(* NewBuilder's checks without the joint-state check (SkipOriginJointStateCheck) *)
-Definition region_ok_nojoint (inp : input) : bool :=
-  let r := i_region inp in
-  forallb (fun p => negb (p_store p =? 0)) (peers r)
-  && memZ (leader_store r) (stores_of (peers r)) && negb (leader_store r =? 0)
-  && (if rules_enabled (i_cfg inp) then match fit_rules (i_fit inp) with [] => false | _ => true end else true).
-
 Definition joint_stage (inp : input) : list res :=
   if in_joint (peers (i_region inp)) && region_ok_nojoint inp then [Some (StJoint, AAny)] else [None].
-
-(* Builder.unhealthyPeers: the stores of pending and down peers *)
-Definition unhealthy_stores (r : region) : list Z :=
-  map (fun d => p_store (fst d)) (down r) ++ flat_map (fun p => if memZ (p_id p) (pending r) then [p_store p] else []) (peers r).
 
 (* LearnerChecker: the first learner (GetLearners is sorted by peer id) whose promotion the builder accepts *)
 Fixpoint insert_by_id (p : peer) (l : list peer) : list peer :=
